@@ -1291,7 +1291,7 @@ package reflect
 
 
 //@ func (f *tField) EncodedSize() (n int)
-//@   requires f != nil && f.Type != nil
+//@   requires f != nil && f.Type != nil && wfT(f.Type)
 //@   modifies nothing
 //@   ensures c04_fixed: (n > 0 <==> fixedF(f)) && (fixedF(f) ==> n == 3 + f.Type.FixedSize)
 
